@@ -49,7 +49,18 @@ async def run_real(rt, prog, family, party=None):
             continue
         op = ops[opn]
         a = [env[v] for v in args]
-        if op.is_async:
+        if p.get('_mut') and not op.is_async:
+            # the caller reuses its list right after the call (before anything is awaited): the operation gets a
+            # copy, and that copy is scrambled as soon as the call returns its placeholders; the result must be
+            # that of the list as it was at the call
+            a = [list(x) if type(x) is list else x for x in a]
+            res = op.real(ctx, a, p)
+            for x in a:
+                if type(x) is list and len(x) >= 2 and not any(x is r for r in res):
+                    x.reverse()
+                    x[0] = x[-1]
+                    del x[1:]
+        elif op.is_async:
             res = await op.real(ctx, a, p)
         else:
             res = op.real(ctx, a, p)
@@ -129,7 +140,7 @@ async def _eff_barrier(ctx, idx, outs, args, p):
     if tm is not None:
         n0 = tm.before_barrier(ctx.rt.pid)
     await ctx.rt.barrier(p.get('name'))
-    if tm is not None:
+    if tm is not None and not ctx.rt.options.no_barrier:      # with --no-barrier a barrier promises nothing
         tm.after_barrier(ctx.rt.pid, n0, f'stmt {idx}')
 
 
